@@ -311,3 +311,69 @@ theorem seenD_congr {t t' : Tables} (h1 : t'.descrs = t.descrs) (h2 : t'.dSaved 
   simp [seenD, findD, h1, h2]
 
 end Sdc.Mdib
+
+namespace Sdc.Mdib
+
+/-! ## removing an object does not change what was seen of its version counter (the version moves to the saved lookup) -/
+
+theorem seenD_rmDescr (t : Tables) (h h' : Handle) : seenD (rmDescr t h) h' = seenD t h' := by
+  unfold seenD
+  by_cases e : h' = h
+  · subst e
+    rw [findD_rmDescr_self, dSaved_rmDescr_self]
+    cases findD t h' <;> rfl
+  · rw [findD_rmDescr_ne t e, dSaved_rmDescr_ne t e]
+theorem seenS_rmState (t : Tables) (h h' : Handle) : seenS (rmState t h) h' = seenS t h' := by
+  unfold seenS
+  by_cases e : h' = h
+  · subst e
+    rw [findS_rmState_self, sSaved_rmState_self]
+    cases findS t h' <;> rfl
+  · rw [findS_rmState_ne t e, sSaved_rmState_ne t e]
+theorem seenC_rmCtx (t : Tables) (h h' : Handle) : seenC (rmCtx t h) h' = seenC t h' := by
+  unfold seenC
+  by_cases e : h' = h
+  · subst e
+    rw [findC_rmCtx_self, cSaved_rmCtx_self]
+    cases findC t h' <;> rfl
+  · rw [findC_rmCtx_ne t e, cSaved_rmCtx_ne t e]
+
+@[simp] theorem seenD_rmState (t : Tables) (h h' : Handle) : seenD (rmState t h) h' = seenD t h' := by simp [seenD]
+@[simp] theorem seenD_rmCtx (t : Tables) (h h' : Handle) : seenD (rmCtx t h) h' = seenD t h' := by simp [seenD]
+@[simp] theorem seenS_rmDescr (t : Tables) (h h' : Handle) : seenS (rmDescr t h) h' = seenS t h' := by simp [seenS]
+@[simp] theorem seenS_rmCtx (t : Tables) (h h' : Handle) : seenS (rmCtx t h) h' = seenS t h' := by simp [seenS]
+@[simp] theorem seenC_rmDescr (t : Tables) (h h' : Handle) : seenC (rmDescr t h) h' = seenC t h' := by simp [seenC]
+@[simp] theorem seenC_rmState (t : Tables) (h h' : Handle) : seenC (rmState t h) h' = seenC t h' := by simp [seenC]
+
+theorem seen_foldl_rmCtx (l : List CState) (t : Tables) (h : Handle) :
+    seenD (l.foldl (fun t c => rmCtx t c.h) t) h = seenD t h ∧ seenS (l.foldl (fun t c => rmCtx t c.h) t) h = seenS t h ∧
+    seenC (l.foldl (fun t c => rmCtx t c.h) t) h = seenC t h := by
+  induction l generalizing t with
+  | nil => exact ⟨rfl, rfl, rfl⟩
+  | cons c cs ih =>
+    simp only [List.foldl_cons]
+    obtain ⟨a, b, c'⟩ := ih (rmCtx t c.h)
+    exact ⟨a.trans (seenD_rmCtx _ _ _), b.trans (seenS_rmCtx _ _ _), c'.trans (seenC_rmCtx _ _ _)⟩
+
+theorem seen_rmDescrAndStates (t : Tables) (d : Descr) (h : Handle) :
+    seenD (rmDescrAndStates t d) h = seenD t h ∧ seenS (rmDescrAndStates t d) h = seenS t h ∧
+    seenC (rmDescrAndStates t d) h = seenC t h := by
+  unfold rmDescrAndStates
+  obtain ⟨a, b, c⟩ := seen_foldl_rmCtx (ctxOf (rmState (rmDescr t d.handle) d.handle) d.handle) (rmState (rmDescr t d.handle) d.handle) h
+  refine ⟨a.trans ?_, b.trans ?_, c.trans ?_⟩
+  · rw [seenD_rmState, seenD_rmDescr]
+  · rw [seenS_rmState, seenS_rmDescr]
+  · rw [seenC_rmState, seenC_rmDescr]
+
+theorem seen_foldl_rmDescrAndStates (l : List Descr) (t : Tables) (h : Handle) :
+    seenD (l.foldl rmDescrAndStates t) h = seenD t h ∧ seenS (l.foldl rmDescrAndStates t) h = seenS t h ∧
+    seenC (l.foldl rmDescrAndStates t) h = seenC t h := by
+  induction l generalizing t with
+  | nil => exact ⟨rfl, rfl, rfl⟩
+  | cons d ds ih =>
+    simp only [List.foldl_cons]
+    obtain ⟨a, b, c⟩ := ih (rmDescrAndStates t d)
+    obtain ⟨a', b', c'⟩ := seen_rmDescrAndStates t d h
+    exact ⟨a.trans a', b.trans b', c.trans c'⟩
+
+end Sdc.Mdib
